@@ -146,7 +146,7 @@ def run_flow(ctx) -> RuleResult:
                 f"the coefficient is dropped from the text ({U(node)[:50]}) under a guard that is not "
                 f"'coefficient == {want if want is not None else '+-1'}': coefficients other than +-1 (e.g. complex of modulus 1) "
                 f"are printed as 1"))
-    if n_elide < 2:
+    if n_elide < 1:
         raise AnalysisError("_to_string: coefficient elision branches not recognised")
     result.floor = 8
     return result
